@@ -93,6 +93,14 @@ def exhaustive(tier):
                {"t": "str", "alphabet": "abq", "substr": "qa", "len": ["min", 3], "order": ["len", "substr", "alphabet"]}):
         for x in strs:
             yield {"spec": sp, "value": x, "src": "conforming", "applied": None}
+    import string
+    classy = [string.digits, "9876543210", string.ascii_lowercase, string.ascii_letters, string.hexdigits, " \t\n\r\x0b\x0c", string.ascii_uppercase,
+              string.digits + string.ascii_letters, string.printable]
+    odd = ["\u0663", "\uff11\uff12\uff13", "10\u00b2", "\u00e9", "\u00df", "\u00aa", "\uff21", "\u00a0", "\u2003", "\u0131", "\u212a", "1\u0663",
+           "a\u00e9", "\u2167", "\u00bd", "A\u0391", " \u00a0", "", "12", "ab", "AB", " "]
+    for al in classy:
+        for x in odd:
+            yield {"spec": {"t": "str", "alphabet": al, "order": ["alphabet"]}, "value": x, "src": "conforming", "applied": None}
     # a fixed float value next to a bound that coincides with it (the value comparison is tolerant, the bounds are exact)
     import math
     for v in (1.0, 9.0, 0.25, -2.5, 1e15, 3.14159):
